@@ -394,6 +394,7 @@ func genPi(t *rapid.T) Pi {
 func genCase(t *rapid.T, thorough bool) *Case {
 	cfg := protogen.DefaultConfig()
 	cfg.PackageCycles = true
+	cfg.SharedDirs = true
 	cfg.CustomOptions = rapid.Bool().Draw(t, "customopts")
 	cfg.MaxFiles, cfg.MaxPackages = 8, 5
 	if thorough {
